@@ -14,6 +14,8 @@ import (
 // in ".*" covers a whole package. Each entry carries the reason.
 var TrustedTotal = map[string]string{
 	// error construction and logging
+	"(*sync.Pool).Get":             "returns a pooled object or the result of New (a module function literal, analysed on its own)",
+	"(*sync.Pool).Put":             "stores its argument, no preconditions",
 	"(*sync.Once).Do":              "runs its argument at most once; the argument is a module function literal, analysed as a reachable function of its own",
 	"errors.New":                   "allocates an error value",
 	"errors.Is":                    "walks the Unwrap chain comparing identities; the Is/Unwrap methods it may call belong to error values built by errors.New, fmt.Errorf and pkg/errors, which are total",
